@@ -91,3 +91,46 @@ Example C17_links_compute :
                  ["{"; "doc"; "}"] NoFault
   = ([("sub/out.json", EFile "{doc}"); ("sub/data.json", EFile "OLD")], true).
 Proof. vm_compute. reflexivity. Qed.
+
+(* ------------------------------------------------------------------ temp file and destination on different file systems
+   (IOLinks.serialize_to_lx): os.rename fails with EXDEV, shutil.move copies — through the links at the destination —
+   and removes the temp file.  After a successful call the named path reads as the whole serialisation, the one entry
+   that changed is the file the chain of links ends at (r: the destination itself when it is a file or absent; created
+   when the last link dangles), the links stay links.  After a failed call — a write call, the move, or a chain of links
+   that does not end — nothing but the temp entry differs.  (A copy failing half-way is not in the model: DESIGN.md.) *)
+Theorem C17_xdev_exact : forall fuel fs name tmp cs path r fs' ok,
+  dest_path name = Some path -> lget fs tmp = None ->
+  lresolve fuel (lset tmp (EFile (cat cs)) fs) path = Some r -> r <> tmp ->
+  serialize_to_lx fuel fs name tmp cs NoFault = (fs', ok) ->
+  ok = true /\ lget fs' r = Some (EFile (cat cs)) /\ lread fuel fs' path = Some (cat cs) /\
+  (forall p, p <> r -> lget fs' p = lget fs p).
+Proof. exact serialize_xdev_exact. Qed.
+Print Assumptions C17_xdev_exact.
+
+Theorem C17_xdev_link_kept : forall fuel fs name tmp cs path q r fs' ok,
+  dest_path name = Some path -> lget fs tmp = None ->
+  lget fs path = Some (ELink q) ->
+  lresolve fuel (lset tmp (EFile (cat cs)) fs) path = Some r -> r <> tmp ->
+  serialize_to_lx fuel fs name tmp cs NoFault = (fs', ok) ->
+  lget fs' path = Some (ELink q) /\ lread fuel fs' path = Some (cat cs).
+Proof. exact serialize_xdev_link_kept. Qed.
+Print Assumptions C17_xdev_link_kept.
+
+Theorem C17_xdev_atomic : forall fuel fs name tmp cs path f fs' ok,
+  dest_path name = Some path ->
+  (f = FaultAtMove \/ (exists k, f = FaultAtWrite k /\ k < length cs) \/
+   (f = NoFault /\ lresolve fuel (lset tmp (EFile (cat cs)) fs) path = None)) ->
+  serialize_to_lx fuel fs name tmp cs f = (fs', ok) ->
+  ok = false /\ (forall p, p <> tmp -> lget fs' p = lget fs p).
+Proof. exact serialize_xdev_atomic. Qed.
+Print Assumptions C17_xdev_atomic.
+
+(* non-vacuity: a link to a link to a file; a dangling link; a loop *)
+Example C17_xdev_compute :
+  serialize_to_lx 40 [("sub/out.json", ELink "sub/l2"); ("sub/l2", ELink "sub/data.json"); ("sub/data.json", EFile "OLD")]
+                  "sub/out.json" "tmp1" ["{"; "doc"; "}"] NoFault
+  = ([("sub/out.json", ELink "sub/l2"); ("sub/l2", ELink "sub/data.json"); ("sub/data.json", EFile "{doc}")], true)
+  /\ serialize_to_lx 40 [("sub/out.json", ELink "sub/nothing")] "sub/out.json" "tmp1" ["{"; "doc"; "}"] NoFault
+  = ([("sub/out.json", ELink "sub/nothing"); ("sub/nothing", EFile "{doc}")], true)
+  /\ snd (serialize_to_lx 40 [("a.json", ELink "b"); ("b", ELink "a.json")] "a.json" "tmp1" ["x"] NoFault) = false.
+Proof. vm_compute. repeat split. Qed.
